@@ -81,8 +81,8 @@ add("C11",
     "DESIGN.md §5 C11")
 
 add("C12",
-    "Proved (exact arithmetic, all inputs): translation, scaling by two, endpoint swap, operand swap and the three reflections for the kernels cross/onSeg/meet/zcross and rectangle predicates; translation/scaling for rayIn; lifted to segsMeetS, Line x Line (lineXLineSym, lineIntersectsLineSym); Move contracts of Point/Rect/Segment/Line; start-vertex/closing-vertex independence of the convexity and orientation flags (C18 bridge lemmas). Re-encoding invariance of the ring/polygon predicates themselves (start vertex, direction, closing vertex) is NOT proved: it rests on the trusted leaves; the bounded symmetry suite applies 13 transformations to sampled scenes.",
-    "Partial proof + bounded stand-in (symmetry suite, oracle-free metamorphic comparison). Known: Line.ContainsLine changes its answer under reversal (F3/F4). baseSeries.Move trusted (element field store unsupported), Poly.Move without contract.",
+    "Proved (exact arithmetic, all inputs): translation, scaling by two, endpoint swap, operand swap and the three reflections for the kernels cross/onSeg/meet/zcross and rectangle predicates; translation/scaling for rayIn; lifted to segsMeetS, Line x Line (lineXLineSym, lineIntersectsLineSym); Move of Point/Rect/Segment, baseSeries.Move (the moved series holds exactly the translated points, keeps its closed flag, its rectangle is the box of the translated points and its index invariant holds) and Line.Move; start-vertex/closing-vertex independence of the convexity and orientation flags (C18 bridge lemmas). Re-encoding invariance of the ring/polygon predicates themselves (start vertex, direction, closing vertex) is NOT proved: it rests on the trusted leaves; the bounded symmetry suite applies 13 transformations to sampled scenes.",
+    "Partial proof + bounded stand-in (symmetry suite, oracle-free metamorphic comparison). Known: Line.ContainsLine changes its answer under reversal (F3/F4). Poly.Move without contract; that a rebuilt index answers like the old one rests on the trusted index builders (bounded index suite, Search.afterMove).",
     "DESIGN.md §5 C12", bounded="symmetry")
 
 add("C13",
